@@ -8,7 +8,8 @@ Require Import Clarabel.Kkt.Spec Clarabel.Kkt.Model Clarabel.Kkt.Check."""
 STRUCT_BITS = [(1, "K.colptr/rowval/nzval"), (2, "map P"), (4, "map A"), (8, "map Hsblocks"), (16, "sparse expansion maps"),
                (32, "diagP"), (64, "diag_full"), (128, "dsigns"), (256, "K is not a canonical CSC matrix"),
                (512, "Spec self-check: entry outside the matrix or duplicate tag (hypotheses of maps_partition_partial)"),
-               (1024, "Spec self-check: entry list is not exactly the block pattern of [P A'; A -H] + expansions with a complete diagonal")]
+               (1024, "Spec self-check: entry list is not exactly the block pattern of [P A'; A -H] + expansions with a complete diagonal"),
+               (2048, "Spec self-check: a column of the Triu entry list is not in non-decreasing row order (hypothesis buckets_sorted of the refinement step)")]
 VALUE_BITS = [(1, "structure/maps/signs of the live KKT matrix differ from the intended layout"),
               (2, "P/A values or -Hs are not at the mapped positions, or a structural diagonal entry is not 0 (KKT copy not restored?)"),
               (4, "eliminating the auxiliary variables does not reproduce the cones' H (mul_Hs), or auxiliary pivot signs differ from dsigns"),
